@@ -1,5 +1,6 @@
 import Rustic.Gen.Constants
 import Rustic.Lemmas.Chunker
+import Rustic.Lemmas.ChunkerRabin
 import Rustic.Lemmas.Rabin
 import Rustic.Model.Chunker
 import Rustic.Model.Rabin
